@@ -490,7 +490,11 @@ fn c19_check(case: &ContentCase, cx: &Cx) -> CheckResult {
         let path = format!("/r/sat/{sat}/at/{index}/content");
         let response = server.get(&path, None, false).map_err(harness("request"))?;
         requests += 1;
-        check_csp(&response, origin, !is_hidden(&member.id), &path).or_else(|f| cx.fail(f))?;
+        // the placeholder served instead of hidden content (the member's own
+        // or its delegate's) is ord's page, not inscription content
+        let hidden_involved = is_hidden(&member.id)
+          || member.delegate.as_ref().and_then(|d| by_id(d)).is_some_and(|t| is_hidden(&t.id));
+        check_csp(&response, origin, !hidden_involved, &path).or_else(|f| cx.fail(f))?;
         let cache = response.header("cache-control").unwrap_or_default();
         if index < 0 && response.status == 200 && cache.contains("immutable") {
           cx.fail(Fail::new(
